@@ -610,7 +610,10 @@ class MessageManager(ClientLike):
             header (MessageHeader): Message header to send
             payload (Union[bytes, MessageData]): Message data to send
         """
-        for module in self.logger_modules:
+        for module in list(self.logger_modules):
+            # Skip loggers that were removed while this message was being sent
+            if module.conn not in self.modules:
+                continue
             if module.conn not in self.wlist:
                 # Block until logger is ready
                 select.select([], [module.conn], [], None)
